@@ -882,3 +882,16 @@ fn replay18(name: &str, case: &Value) -> Option<Verdict> {
         _ => None,
     }
 }
+
+// ---------- helpers for other properties (C16) ----------
+
+pub fn strat18_pub(t: Tier) -> BoxedStrategy<Case18> {
+    strat18(t)
+}
+
+/// (transactions JSON, awards JSON) of a generated export
+pub fn export_texts(c: &Case18) -> (String, String) {
+    let (awards, _) = awards_for(c.base, &c.rows);
+    let text = json!({"BrokerageTransactions": c.rows.iter().map(|r| row_json(c.base, r, &c.rows)).collect::<Vec<_>>()}).to_string();
+    (text, awards)
+}
